@@ -121,4 +121,105 @@ theorem C14_longest_is_longest_in_language (r : Re) (s : List Char) :
     (Re.longest r s = none → ∀ k, k ≤ s.length → ATN.reMatches r (ATN.codes (s.take k)) = false) :=
   ATN.longest_spec r s
 
+/-- fold invariant for ties: either the incumbent survives (no later rule matches strictly more), or the
+result is the FIRST rule, in list order, that attains the maximal match length -/
+theorem bestRule_first (rules : List (TokKind × Re × Bool)) (s : List Char) (acc : Option (TokKind × Bool × Nat))
+    (res : TokKind × Bool × Nat) (h : rules.foldl (bestStep s) acc = some res) :
+    (acc = some res ∧ ∀ r ∈ rules, ∀ n, ruleMatch s r = some n → n ≤ res.2.2) ∨
+    (∃ pre r post n, rules = pre ++ r :: post ∧ ruleMatch s r = some n ∧ res = (r.1, r.2.2, n) ∧
+      (∀ x ∈ pre, ∀ m, ruleMatch s x = some m → m < n) ∧ (∀ a, acc = some a → a.2.2 < n) ∧
+      (∀ x ∈ post, ∀ m, ruleMatch s x = some m → m ≤ n)) := by
+  induction rules generalizing acc with
+  | nil =>
+    simp only [List.foldl_nil] at h
+    exact Or.inl ⟨h, fun r hr => by cases hr⟩
+  | cons r rest ih =>
+    simp only [List.foldl_cons] at h
+    rw [bestRule_step] at h
+    cases hm : ruleMatch s r with
+    | none =>
+      rw [hm] at h
+      rcases ih acc h with ⟨ha, hb⟩ | ⟨pre, x, post, n, hsplit, hx, hres, hpre, hacc, hpost⟩
+      · refine Or.inl ⟨ha, ?_⟩
+        intro y hy k hk
+        rcases List.mem_cons.mp hy with rfl | hy'
+        · rw [hm] at hk; cases hk
+        · exact hb y hy' k hk
+      · refine Or.inr ⟨r :: pre, x, post, n, by rw [hsplit]; rfl, hx, hres, ?_, hacc, hpost⟩
+        intro y hy k hk
+        rcases List.mem_cons.mp hy with rfl | hy'
+        · rw [hm] at hk; cases hk
+        · exact hpre y hy' k hk
+    | some n =>
+      rw [hm] at h
+      cases acc with
+      | none =>
+        simp only at h
+        rcases ih _ h with ⟨ha, hb⟩ | ⟨pre, x, post, nx, hsplit, hx, hres, hpre, hacc, hpost⟩
+        · simp only [Option.some.injEq] at ha
+          refine Or.inr ⟨[], r, rest, n, rfl, hm, ha.symm, (by intro y hy; cases hy), (by intro a ha'; cases ha'), ?_⟩
+          intro y hy k hk
+          have := hb y hy k hk
+          rw [← ha] at this
+          exact this
+        · have hlt := hacc _ rfl
+          simp only at hlt
+          refine Or.inr ⟨r :: pre, x, post, nx, by rw [hsplit]; rfl, hx, hres, ?_, (by intro a ha'; cases ha'), hpost⟩
+          intro y hy k hk
+          rcases List.mem_cons.mp hy with rfl | hy'
+          · rw [hm] at hk; cases hk; exact hlt
+          · exact hpre y hy' k hk
+      | some a =>
+        obtain ⟨k0, sk0, m0⟩ := a
+        simp only at h
+        by_cases hgt : n > m0
+        · simp only [hgt, if_true] at h
+          rcases ih _ h with ⟨ha, hb⟩ | ⟨pre, x, post, nx, hsplit, hx, hres, hpre, hacc, hpost⟩
+          · simp only [Option.some.injEq] at ha
+            refine Or.inr ⟨[], r, rest, n, rfl, hm, ha.symm, (by intro y hy; cases hy), ?_, ?_⟩
+            · intro a ha'; cases ha'; exact hgt
+            · intro y hy k hk
+              have := hb y hy k hk
+              rw [← ha] at this
+              exact this
+          · have hlt := hacc _ rfl
+            simp only at hlt
+            refine Or.inr ⟨r :: pre, x, post, nx, by rw [hsplit]; rfl, hx, hres, ?_, ?_, hpost⟩
+            · intro y hy k hk
+              rcases List.mem_cons.mp hy with rfl | hy'
+              · rw [hm] at hk; cases hk; exact hlt
+              · exact hpre y hy' k hk
+            · intro a ha'; cases ha'; simp only; omega
+        · simp only [hgt, if_false] at h
+          rcases ih _ h with ⟨ha, hb⟩ | ⟨pre, x, post, nx, hsplit, hx, hres, hpre, hacc, hpost⟩
+          · refine Or.inl ⟨ha, ?_⟩
+            simp only [Option.some.injEq] at ha
+            intro y hy k hk
+            rcases List.mem_cons.mp hy with rfl | hy'
+            · rw [hm] at hk; cases hk
+              rw [← ha]; simp only; omega
+            · exact hb y hy' k hk
+          · have hlt := hacc _ rfl
+            simp only at hlt
+            refine Or.inr ⟨r :: pre, x, post, nx, by rw [hsplit]; rfl, hx, hres, ?_, hacc, hpost⟩
+            intro y hy k hk
+            rcases List.mem_cons.mp hy with rfl | hy'
+            · rw [hm] at hk; cases hk; omega
+            · exact hpre y hy' k hk
+
+/-- **Earliest rule wins ties.** The rule chosen at a position is the first one, in grammar order, whose
+match is as long as any rule's: every earlier rule matches strictly less, every later rule at most as much. -/
+theorem C14_earliest_rule_wins_ties (rules : List (TokKind × Re × Bool)) (s : List Char) (k : TokKind) (sk : Bool) (n : Nat)
+    (h : bestRule rules s = some (k, sk, n)) :
+    ∃ pre r post, rules = pre ++ r :: post ∧ r.1 = k ∧ r.2.2 = sk ∧ ruleMatch s r = some n ∧
+      (∀ x ∈ pre, ∀ m, ruleMatch s x = some m → m < n) ∧ (∀ x ∈ post, ∀ m, ruleMatch s x = some m → m ≤ n) := by
+  unfold bestRule at h
+  rcases bestRule_first rules s none (k, sk, n) h with ⟨ha, _⟩ | ⟨pre, r, post, n', hsplit, hr, hres, hpre, _, hpost⟩
+  · cases ha
+  · simp only [Prod.mk.injEq] at hres
+    obtain ⟨h1, h2, h3⟩ := hres
+    subst h3
+    exact ⟨pre, r, post, hsplit, h1.symm, h2.symm, hr, hpre, hpost⟩
+
+
 end Blackbird
